@@ -234,8 +234,12 @@ def tlc_mc(spec_path, cfg_path, tag, workers=8, timeout=3000, xmx="8g", extra=No
             md.parent.rmdir()
         except OSError:
             pass
-    ok = "Model checking completed. No error has been found." in out or (simulate and "Error" not in out)
+    ok = "Model checking completed. No error has been found." in out or \
+        bool(simulate and "Error:" not in out and "violated" not in out and "states generated" in out)
     m = re.findall(r"(\d+) states generated, (\d+) distinct states found", out)
+    if simulate and not m:
+        ms = re.findall(r"The number of states generated: (\d+)", out)
+        m = [(ms[-1], "0")] if ms else []
     cov = {}
     for name, a, b in re.findall(r"<(\w+) line \d+, col \d+ to line \d+, col \d+ of module \w+>: (\d+):(\d+)", out):
         cov[name] = cov.get(name, 0) + int(b)
